@@ -576,15 +576,29 @@ impl<T: Transport, Env: UtpEnvironment> VirtualSocket<T, Env> {
 
         let mut message_too_long = None;
 
+        // With nothing in flight no ACK will ever arrive to grow the congestion window, so a
+        // queued segment larger than the window (an MTU probe) would be stuck forever.
+        let nothing_in_flight = !in_recovery
+            && self
+                .user_tx_segments
+                .calc_flight_size(self.last_sent_seq_nr)
+                == 0;
+
         // Send the stuff we haven't sent yet, up to sender's window.
         for mut item in self
             .user_tx_segments
             .iter_mut_for_sending(Some(self.last_sent_seq_nr + 1))
         {
             if remaining_cwnd < item.payload_size() {
-                METRICS.send_window_exhausted.increment(1);
-                trace_every_ms!(100, "remote recv window exhausted");
-                break;
+                // Always allow one segment when the pipe is empty, if the peer's window allows it.
+                let send_alone = nothing_in_flight
+                    && sent_count == 0
+                    && item.payload_size() <= self.last_remote_window as usize;
+                if !send_alone {
+                    METRICS.send_window_exhausted.increment(1);
+                    trace_every_ms!(100, "remote recv window exhausted");
+                    break;
+                }
             }
 
             match send_data!(self, cx, header, item) {
@@ -596,7 +610,7 @@ impl<T: Transport, Env: UtpEnvironment> VirtualSocket<T, Env> {
                         remaining_cwnd,
                         "sent ST_DATA"
                     );
-                    remaining_cwnd -= item.payload_size();
+                    remaining_cwnd = remaining_cwnd.saturating_sub(item.payload_size());
                     sent_count += 1;
                 }
                 // Transport was pending, need to retry
